@@ -23,7 +23,7 @@ class Fn:
 
     def __init__(self, d, crate):
         self.path = d['path']
-        self.kind = d['kind']
+        self.kind = d['kind'].split(' ')[0]
         self.loc = d['loc']
         self.macro = d['macro']
         self.argc = d['argc']
@@ -289,8 +289,9 @@ class Explorer:
     Switches on enum discriminants / booleans fork; `?` follows the Continue arm only unless
     follow_break is set; loops are cut after `max_visits` visits of a block per path."""
 
-    def __init__(self, fn, follow_break=False, max_visits=1, max_paths=4000, transparent=is_transparent, on_call=None, keep_site=False):
+    def __init__(self, fn, follow_break=False, max_visits=1, max_paths=4000, transparent=is_transparent, on_call=None, keep_site=False, facts=None):
         self.fn = fn
+        self.fx = facts
         self.follow_break = follow_break
         self.max_visits = max_visits
         self.max_paths = max_paths
@@ -331,6 +332,14 @@ class Explorer:
                         continue
                 v = ('field', v, name)
                 continue
+            if p.startswith('[c') and not p.startswith('[c-') and v[0] == 'agg' and v[1] in ('array', 'tuple'):
+                try:
+                    ci = int(p[2:-1])
+                    if ci < len(v[2]):
+                        v = v[2][ci]
+                        continue
+                except ValueError:
+                    pass
             v = ('idx', v, p)
         return v
 
@@ -341,7 +350,14 @@ class Explorer:
         if k == 'const':
             if o.get('def'):
                 return ('fn', short(o['def']), o.get('inst', ''))
-            return ('const', o['v'].replace('const ', ''), o.get('ty', ''))
+            val = o['v'].replace('const ', '')
+            if self.fx is not None and ('::' in val):
+                pf = self.fx.crates[self.fn.crate].get(val)
+                if pf is not None and ('::promoted[' in val or pf.kind in ('Const', 'AssocConst')) and pf.path != self.fn.path:
+                    r = [x for x in Explorer(pf, facts=self.fx).run() if x[0] == 'RET']
+                    if len(r) == 1:
+                        return r[0][2]
+            return ('const', val, o.get('ty', ''))
         return ('?', o.get('v', ''))
 
     def rvalue(self, env, rv):
